@@ -11,3 +11,5 @@ import Geo.Props.C18b
 #print axioms Geo.segContains_finite
 #print axioms Geo.T18_segIntersect_sound
 #print axioms Geo.T18_segIntersect_complete
+#print axioms Geo.T18_polyIntersectLine_sound
+#print axioms Geo.T18_polyIntersectLine_nil
